@@ -90,6 +90,14 @@ func tvRunOpts(ctx *RunCtx, pkgs []*tv.Package, o tvOpts) error {
 			return fmt.Errorf("goose produced no output for package %s (exit %d): %s", p.Name, tr.Exit, firstLines(tr.Stderr, 10))
 		}
 		file, perr := gl.Parse(tr.V)
+		if perr != nil && len(p.Cases) > 1 {
+			// isolate the declaration whose output does not parse: one package per case
+			pkgs = append(pkgs, p.Singletons()...)
+			mu.Lock()
+			ctx.Programs -= len(p.Cases)
+			mu.Unlock()
+			continue
+		}
 		if perr != nil {
 			if _, isLex := perr.(*gl.LexError); isLex {
 				mu.Lock()
